@@ -1,0 +1,30 @@
+//go:build verif
+
+package pool
+
+// HoldLocalPoolForVerif takes the local pool's lock and returns the function that releases it, so
+// that a harness can park several concurrent callers at the entry of a critical section and let
+// them go at once.
+func (p *PeerPool) HoldLocalPoolForVerif() (release func()) {
+	p.localPool.mu.Lock()
+	return p.localPool.mu.Unlock
+}
+
+// LocalSnapshotForVerif returns copies of the local pool's three structures: the allocations
+// (subscriber -> address), the free list in order, and the reverse index (address -> subscriber).
+func (p *PeerPool) LocalSnapshotForVerif() (allocations map[string]string, available []string, ipToSub map[string]string) {
+	p.localPool.mu.Lock()
+	defer p.localPool.mu.Unlock()
+	allocations = make(map[string]string, len(p.localPool.allocations))
+	for k, v := range p.localPool.allocations {
+		allocations[k] = v.String()
+	}
+	for _, v := range p.localPool.available {
+		available = append(available, v.String())
+	}
+	ipToSub = make(map[string]string, len(p.localPool.ipToSub))
+	for k, v := range p.localPool.ipToSub {
+		ipToSub[k] = v
+	}
+	return allocations, available, ipToSub
+}
